@@ -470,6 +470,8 @@ MUTANTS = [
     dict(name='c03-zombie-flag-missing', prop='C03', clause='D4', edits=[
         (PR_H, "        parent_ptr->has_right_zombie = true;", "        ")]),
     dict(name='c03-seed6-ancestor-climb-stops-at-a-painted-ancestor', prop='C03', clause='D2', edits=[('src/tbb/task_group_context.cpp', '                    (c->*mptr_state).store(new_state, std::memory_order_relaxed);\n                break;\n            }\n        }\n', '                    (c->*mptr_state).store(new_state, std::memory_order_relaxed);\n                break;\n            }\n            // An ancestor that is already in the new state has had its own subtree taken care of\n            if ((ancestor->*mptr_state).load(std::memory_order_relaxed) == new_state)\n                break;\n        }\n')]),
+    dict(name='c03-destructor-wait-unguarded-during-unwinding', prop='C03', clause='D2', edits=[('include/oneapi/tbb/task_group.h', '#if TBB_USE_EXCEPTIONS\n                try\n#endif\n                {\n                    d1::wait(m_wait_vertex.get_context(), context());\n                }\n#if TBB_USE_EXCEPTIONS\n                catch (...) {}\n#endif\n', '                d1::wait(m_wait_vertex.get_context(), context());\n')]),
+    dict(name='c03-destructor-wait-handler-rethrows', prop='C03', clause='D2', edits=[('include/oneapi/tbb/task_group.h', '#if TBB_USE_EXCEPTIONS\n                try\n#endif\n                {\n                    d1::wait(m_wait_vertex.get_context(), context());\n                }\n#if TBB_USE_EXCEPTIONS\n                catch (...) {}\n#endif\n', '#if TBB_USE_EXCEPTIONS\n                try\n#endif\n                {\n                    d1::wait(m_wait_vertex.get_context(), context());\n                }\n#if TBB_USE_EXCEPTIONS\n                catch (...) { throw; }\n#endif\n')]),
     # ---------------------------------------------------------------- C04
     dict(name='c04-cancel-load-store', prop='C04', clause='D1', edits=[
         (TGC_CPP, "if (ctx.my_cancellation_requested.load(std::memory_order_relaxed) || ctx.my_cancellation_requested.exchange(1)) {",
@@ -1243,6 +1245,7 @@ MUTANTS = [
     dict(name='c10-growth-after-insert-unguarded', prop='C10', clause='D5', edits=[(CHM_H, '#if TBB_USE_EXCEPTIONS\n            try\n#endif\n            {\n                this->enable_segment( grow_segment );\n            }\n#if TBB_USE_EXCEPTIONS\n            catch(...) {}\n#endif\n', '            this->enable_segment( grow_segment );\n')]),
     dict(name='c10-seed6-accessor-remembers-the-masked-hash', prop='C10', clause='D2', edits=[(CHM_H, '        result->my_hash = h;\n', '        result->my_hash = h & m; // exclude() only needs it to locate the bucket\n')]),
     dict(name='c10-accessor-remembers-a-masked-hash-through-a-local', prop='C10', clause='D2', edits=[(CHM_H, '        result->my_hash = h;\n', '        { const hashcode_type reduced = h & m; result->my_hash = reduced; }\n')]),
+    dict(name='c10-rehash-handler-leaves-the-mark', prop='C10', clause='D2', edits=[(CHM_H, '            b_new->node_list.store(reinterpret_cast<node_base*>(rehash_req_flag), std::memory_order_release);\n            throw;\n', '            throw;\n')]),
     # ---------------------------------------------------------------- C11
     dict(name='c11-int-delta-regression', prop='C11', clause='D6', edits=[
         (CV_H, "        if (old_size < new_size) {\n            return internal_grow(old_size, new_size, args...);\n        }",
